@@ -102,6 +102,8 @@ func (f *frame) toks(out []string) []string {
 			out = append(out, string(a.kind), strconv.Itoa(a.k))
 		case 'V':
 			out = append(out, "V")
+		case 'Q':
+			out = append(out, "Q", a.addr)
 		}
 	}
 	out = append(out, "E")
@@ -144,8 +146,8 @@ func (f *frame) mayBurnAll() bool {
 		return true
 	}
 	for _, a := range f.acts {
-		if a.kind == 'V' || a.kind == 'D' && false {
-			return true
+		if a.kind == 'V' || a.kind == 'Q' {
+			return true // UNSTAKEALL / STAKENUM fail the frame when there is no such miner
 		}
 	}
 	return false
@@ -171,7 +173,7 @@ func (f *frame) need() uint64 {
 			n += cSuicide
 		case 'L':
 			n += cLog
-		case 'K', 'U', 'V':
+		case 'K', 'U', 'V', 'Q':
 			n += cStake
 		case 'C', 'A':
 			g := a.body.need()
@@ -221,12 +223,13 @@ type gen struct {
 	blk       *block
 	nextID    int
 	withAuth  bool
+	withStake bool
 	authNonce int // predicted nonce of authority b30
 }
 
 func newGen(r *hx.Rng, st *stats) *gen { return &gen{r: r, st: st} }
 
-var hosts = []string{"b20", "b21", "b22", "b23"}
+var hosts = []string{"b20", "b21", "b22", "b23", "b23"}
 var valuePool = []int{0, 0, 0, 1, 1, 2, 7, 49, 50, 51, 999, 1000, 1001, 5000}
 
 func (g *gen) block() *block {
@@ -259,6 +262,15 @@ func (g *gen) block() *block {
 	g.blk = b
 	g.withAuth = r.Chance(1, 2)
 	g.authNonce = 0
+	if !g.withAuth && r.Chance(1, 2) {
+		// b23 is a contract registered as a validator miner account (stake 400 RPG); 2 RPG and a bit are left on it
+		g.withStake = true
+		for i := range b.accounts {
+			if b.accounts[i].n == 23 {
+				b.accounts[i].kind, b.accounts[i].balance = "m", 2000000000000000007
+			}
+		}
+	}
 	g.nextID = 1
 	ntx := 1 + r.Intn(4)
 	for i := 0; i < ntx; i++ {
@@ -313,6 +325,9 @@ func (g *gen) tx(i int) *txn {
 			t.body = g.frame(1, maxDepth, "dyn", false, true)
 		} else {
 			t.target = hosts[r.Intn(len(hosts))]
+			if g.withStake && r.Chance(1, 2) {
+				t.target = "b23" // the miner account
+			}
 			if r.Chance(1, 25) {
 				t.target = []string{"b11", "b40", "prec"}[r.Intn(3)] // EOA, non-existent account, precompile
 			}
@@ -370,6 +385,9 @@ func (g *gen) frame(depth, maxDepth int, self string, static, inCreate bool) *fr
 	authed := false
 	for i := 0; i < nacts; i++ {
 		c := r.Intn(100)
+		if g.withStake && r.Chance(1, 4) {
+			c = 50 // a STAKE-family opcode
+		}
 		var a *act
 		switch {
 		case c < 22:
@@ -394,6 +412,23 @@ func (g *gen) frame(depth, maxDepth int, self string, static, inCreate bool) *fr
 			a = &act{kind: 'D', addr: []string{"b10", "b11", "b21", "b41", self}[r.Intn(5)]}
 			if a.addr == "dyn" {
 				a.addr = "b41"
+			}
+		case c < 60 && g.withStake:
+			if pure && r.Chance(1, 2) {
+				continue
+			}
+			switch r.Intn(6) {
+			case 0, 1:
+				a = &act{kind: 'K', k: r.Pick(0, 1, 1, 2, 3)}
+			case 2, 3:
+				a = &act{kind: 'U', k: r.Pick(0, 1, 100, 400, 401, 402)}
+			case 4:
+				a = &act{kind: 'V'}
+			default:
+				a = &act{kind: 'Q', addr: []string{"b23", "b23", "b20", self}[r.Intn(4)]}
+				if a.addr == "dyn" {
+					a.addr = "b21"
+				}
 			}
 		case c < 57 && g.withAuth:
 			if depth >= maxDepth {
